@@ -98,10 +98,27 @@ func vpRefLookup(host string, tls bool, path string, fold, globs bool) []string 
 	return nil
 }
 
+func vpCharsUpTo(label, set string, max int) string {
+	n := vp.Choice(label+"-len", max+1)
+	for i := 0; i < max; i++ {
+		if n == i {
+			return vp.Chars(label, set, i)
+		}
+	}
+	return vp.Chars(label, set, max)
+}
+
 func vpLookup(matcherName string, globDisabled bool) {
 	t := vpBuildTable()
-	host := vp.StringOf("host", "a-zA-Z0-9.:-", vp.Param("HOSTLEN"))
-	path := "/" + vp.StringOf("path", "a-zA-Z0-9/._-", vp.Param("PATHLEN"))
+	var host, path string
+	if vp.Param("CV") == 1 {
+		// character vectors: concrete length, symbolic characters (engine/cv.go)
+		host = vpCharsUpTo("host", "a-zA-Z0-9.:-", vp.Param("HOSTLEN"))
+		path = "/" + vpCharsUpTo("path", "a-zA-Z0-9/._-", vp.Param("PATHLEN"))
+	} else {
+		host = vp.StringOf("host", "a-zA-Z0-9.:-", vp.Param("HOSTLEN"))
+		path = "/" + vp.StringOf("path", "a-zA-Z0-9/._-", vp.Param("PATHLEN"))
+	}
 	isTLS := vp.Bool("tls")
 	req := &http.Request{Host: host, URL: &url.URL{Path: path}, Header: http.Header{}}
 	if isTLS {
